@@ -1,12 +1,13 @@
 """C07 -- discovery reports exact statistics of the data."""
 from runner.core import Context, finish
 
-MODULES = ['contracts.constraints']
+MODULES = ['contracts.constraints', 'contracts.pdcalc']
 PID = 'C07'
 
 
 def targets():
     import contracts.constraints as cc
+    import contracts.pdcalc
     from pyvc.contracts import REGISTRY
     return [i for i, c in REGISTRY.items() if not c.assumed and 'C07' in c.props]
 
